@@ -167,7 +167,11 @@ func validateV2(doc map[string]any) []string {
 					continue
 				}
 				if seen[in+":"+name] {
-					bad("parameter-duplicate", where+" "+in+":"+name)
+					if in == "header" && name == "Authorization" {
+						bad("parameter-duplicate:authorization-header", where)
+					} else {
+						bad("parameter-duplicate", where+" "+in+":"+name)
+					}
 				}
 				seen[in+":"+name] = true
 				switch in {
@@ -179,7 +183,14 @@ func validateV2(doc map[string]any) []string {
 				default:
 					t := asString(pm["type"])
 					if !v2Types[t] {
-						bad("parameter-type-invalid", where+" "+name+" type="+t)
+						switch {
+						case t == "" && in == "formData" && asMap(pm["schema"]) != nil:
+							bad("parameter-type-invalid:formdata-with-schema", where+" "+name)
+						case t == "map":
+							bad("parameter-type-invalid:map", where+" "+name)
+						default:
+							bad("parameter-type-invalid", where+" "+name+" type="+t)
+						}
 					}
 					if t == "array" && asMap(pm["items"]) == nil {
 						bad("array-parameter-without-items", where+" "+name)
